@@ -237,7 +237,11 @@ class StreamResult:
         self.bad = []
         self.classes = {}
         self.samples = []
-        self.distinct = set()
+        self.distinct = set()       # legacy (kept for plug-ins that add to it); the driver counts distinct lines itself
+        self.distinct_count = 0
+        self.specfail_total = 0
+        self.modeldiff_total = 0
+        self.bad_total = 0
         self.harness_rc = 0
         self.harness_err = ""
         self.driver_rc = 0
@@ -248,28 +252,109 @@ class StreamResult:
                 "specfail": len(self.specfail), "bad": len(self.bad)}
 
 
+def _parse_driver_output(res, label, out_lines, fulls=None):
+    """accumulate the driver's report lines into `res`"""
+    fulls = fulls if fulls is not None else {}
+    pending = []
+    for l in out_lines:
+        if l.startswith("FULL "):
+            _, n, rest = l.split(" ", 2)
+            fulls[int(n)] = rest
+    for l in out_lines:
+        if l.startswith("SPECFAIL "):
+            n = int(l.split()[1])
+            res.specfail.append({"stream": label, "line": fulls.get(n, l.split(" ", 2)[2]), "driver": l[:600]})
+        elif l.startswith("MODELDIFF "):
+            n = int(l.split()[1])
+            res.modeldiff.append({"stream": label, "line": fulls.get(n, l.split(" ", 2)[2]), "driver": l[:600]})
+        elif l.startswith("BAD "):
+            res.bad.append("[%s] %s" % (label, l[:300]))
+        elif l.startswith("CLASS "):
+            k, n = l[6:].rsplit(" ", 1)
+            res.classes[k] = res.classes.get(k, 0) + int(n)
+        elif l.startswith("SUMMARY "):
+            kv = dict(x.split("=") for x in l.split()[1:])
+            res.lines += int(kv["lines"])
+            res.ok += int(kv["ok"])
+            res.distinct_count += int(kv.get("distinct", 0))
+            # failures beyond the driver's report cap are only counted
+            res.specfail_total += int(kv["specfail"])
+            res.modeldiff_total += int(kv["modeldiff"])
+            res.bad_total += int(kv["bad"])
+
+
 def run_stream(res, label, exe, env=None, args=None, line_filter=None, trivial=None, stdin_data=None, timeout=3000):
-    """Run one harness binary, pipe its op lines to the Lean driver, accumulate into `res`."""
+    """Run one harness binary and pipe its op lines to the Lean driver (streamed: memory stays bounded whatever the
+    stream size).  `line_filter(line)` may return False (drop), True (keep) or a replacement line."""
+    import threading
     e = dict(os.environ)
     e.update(env or {})
     e.setdefault("ASAN_OPTIONS", "detect_leaks=1:abort_on_error=0:exitcode=97")
     e.setdefault("UBSAN_OPTIONS", "print_stacktrace=1:halt_on_error=1:exitcode=98")
     t0 = time.time()
+    errf = open(os.path.join(BUILD, "stderr_%s_%d.txt" % (re.sub(r"[^A-Za-z0-9_.-]", "_", label), os.getpid())), "w+")
+    h = subprocess.Popen([exe] + (args or []), stdout=subprocess.PIPE, stderr=errf, stdin=subprocess.PIPE if stdin_data else subprocess.DEVNULL,
+                         env=e, text=True, bufsize=1 << 20)
+    d = subprocess.Popen([DRIVER], stdin=subprocess.PIPE, stdout=subprocess.PIPE, stderr=subprocess.PIPE, text=True, bufsize=1 << 20)
+    dout = []
+    rd = threading.Thread(target=lambda: dout.extend(d.stdout.read().splitlines()))
+    rd.start()
+    if stdin_data:
+        threading.Thread(target=lambda: (h.stdin.write(stdin_data), h.stdin.close())).start()
+    n = 0
+    sample_every = 1
     try:
-        h = subprocess.run([exe] + (args or []), capture_output=True, text=True, env=e, input=stdin_data, timeout=timeout)
-    except subprocess.TimeoutExpired:
-        res.harness_rc = -9
-        res.harness_err += "[%s] harness timeout\n" % label
-        return
-    if h.returncode != 0:
-        res.harness_rc = h.returncode
-        res.harness_err += "[%s] rc=%d\n%s\n" % (label, h.returncode, h.stderr[-3000:])
-    lines = [l for l in h.stdout.splitlines() if l and not l.startswith("#")]
-    if line_filter:
-        lines = [l for l in lines if line_filter(l)]
-    feed_driver(res, label, lines, trivial)
-    res.streams.append({"label": label, "lines": len(lines), "wall_s": round(time.time() - t0, 2), "harness_rc": h.returncode})
-    return h
+        for l in h.stdout:
+            if not l or l[0] == "#" or l == "\n":
+                continue
+            if line_filter:
+                k = line_filter(l.rstrip("\n"))
+                if k is False or k is None:
+                    continue
+                if k is not True:
+                    l = k + "\n"
+            try:
+                d.stdin.write(l)
+            except BrokenPipeError:
+                break
+            n += 1
+            if n % sample_every == 0 and len(res.samples) < 12:
+                ll = l.rstrip("\n")
+                res.samples.append(("[%s] " % label) + (ll if len(ll) < 400 else ll[:400] + " …"))
+                sample_every *= 8
+            if time.time() - t0 > timeout:
+                h.kill()
+                res.harness_err += "[%s] harness timeout\n" % label
+                break
+    finally:
+        try:
+            d.stdin.close()
+        except Exception:
+            pass
+    hrc = h.wait()
+    d.wait()
+    rd.join()
+    errf.seek(0)
+    err = errf.read()
+    errf.close()
+    try:
+        os.remove(errf.name)
+    except OSError:
+        pass
+    if hrc != 0:
+        res.harness_rc = hrc
+        res.harness_err += "[%s] rc=%d\n%s\n" % (label, hrc, err[-3000:])
+    if d.returncode not in (0, 1):
+        res.driver_rc = d.returncode
+        res.bad.append("[%s] driver crashed rc=%d %s" % (label, d.returncode, d.stderr.read()[-500:]))
+    _parse_driver_output(res, label, dout)
+    res.streams.append({"label": label, "lines": n, "wall_s": round(time.time() - t0, 2), "harness_rc": hrc})
+
+    class _H:
+        returncode = hrc
+        stderr = err
+        stdout = ""
+    return _H
 
 
 def feed_driver(res, label, lines, trivial=None):
@@ -279,27 +364,7 @@ def feed_driver(res, label, lines, trivial=None):
     res.driver_rc = res.driver_rc or (0 if d.returncode in (0, 1) else d.returncode)
     if d.returncode not in (0, 1):
         res.bad.append("[%s] driver crashed rc=%d %s" % (label, d.returncode, d.stderr[-500:]))
-    for l in d.stdout.splitlines():
-        if l.startswith("SPECFAIL "):
-            n = int(l.split()[1])
-            res.specfail.append({"stream": label, "line": lines[n - 1], "driver": l})
-        elif l.startswith("MODELDIFF "):
-            n = int(l.split()[1])
-            res.modeldiff.append({"stream": label, "line": lines[n - 1], "driver": l})
-        elif l.startswith("BAD "):
-            res.bad.append("[%s] %s" % (label, l))
-        elif l.startswith("CLASS "):
-            _, k, n = l.rsplit(" ", 2)[0].split(" ", 1)[0], l[6:].rsplit(" ", 1)[0], int(l.rsplit(" ", 1)[1])
-            res.classes[k] = res.classes.get(k, 0) + n
-        elif l.startswith("SUMMARY "):
-            kv = dict(x.split("=") for x in l.split()[1:])
-            res.lines += int(kv["lines"])
-            res.ok += int(kv["ok"])
-    for l in lines:
-        lhs = l.split(" => ")[0]
-        if trivial is None or not trivial(lhs):
-            res.distinct.add(hashlib.blake2b(lhs.encode(), digest_size=8).digest())
-    # a few samples spread over the stream
+    _parse_driver_output(res, label, d.stdout.splitlines(), {i + 1: l for i, l in enumerate(lines)} if len(lines) < 100000 else None)
     step = max(1, len(lines) // 3)
     for l in lines[::step][:3]:
         if len(res.samples) < 12:
@@ -317,6 +382,10 @@ def merge_results(res, parts):
             res.classes[k] = res.classes.get(k, 0) + v
         res.samples += r.samples
         res.distinct |= r.distinct
+        res.distinct_count += r.distinct_count
+        res.specfail_total += r.specfail_total
+        res.modeldiff_total += r.modeldiff_total
+        res.bad_total += r.bad_total
         if r.harness_rc != 0:
             res.harness_rc = r.harness_rc
         res.harness_err += r.harness_err
